@@ -80,7 +80,8 @@ theorem enum_shapes_reviewed :
     enumShapes.map (·.1) =
       ["chewing_cand_Enumerate", "chewing_cand_hasNext", "chewing_cand_String", "chewing_cand_String_static",
        "chewing_cand_string_by_index", "chewing_cand_string_by_index_static", "chewing_interval_Enumerate",
-       "chewing_interval_hasNext", "chewing_interval_Get"] ∧ ∀ r ∈ enumShapes, r.2 = 1 := by decide
+       "chewing_interval_hasNext", "chewing_zuin_Check", "chewing_zuin_String", "chewing_get_phoneSeq",
+       "chewing_get_phoneSeqLen", "chewing_interval_Get"] ∧ ∀ r ∈ enumShapes, r.2 = 1 := by decide
 
 /-- the static getters write the buffer C15's table names for them, and every such buffer exists -/
 theorem static_rows_match_c15 :
@@ -157,12 +158,17 @@ end Values
 
 /-! ## 2. purity at the C level -/
 
-/-- the getters that do not read the getter-only slots: every plain getter, the mode getters, `string_by_index(_static)` -/
+/-- the getters that do not read the getter-only slots: every plain getter, the mode getters, `string_by_index(_static)`,
+    `zuin_Check/String`, `get_phoneSeq(Len)` -/
 def Getter.blind : Getter → Bool
   | .plain _ => true
   | .mode _ => true
   | .candStringByIndex _ => true
   | .candStringByIndexStatic _ => true
+  | .zuinCheck => true
+  | .zuinString => true
+  | .phoneSeq => true
+  | .phoneSeqLen => true
   | _ => false
 
 def GCall.blind : GCall → Bool
@@ -221,6 +227,18 @@ theorem getOn_blind (f : GFacts) {q : Getter} (hb : Getter.blind q = true) {s s'
     | some t =>
       simp only [getOn, hlk, Outcome.ok.injEq, Prod.mk.injEq] at h ⊢
       exact ⟨_, rfl, h.2⟩
+  | zuinCheck =>
+    simp only [getOn, Outcome.ok.injEq, Prod.mk.injEq] at h ⊢
+    exact ⟨s2, rfl, h.2⟩
+  | zuinString =>
+    simp only [getOn, Outcome.ok.injEq, Prod.mk.injEq] at h ⊢
+    exact ⟨s2, rfl, h.2⟩
+  | phoneSeq =>
+    simp only [getOn, Outcome.ok.injEq, Prod.mk.injEq] at h ⊢
+    exact ⟨s2, rfl, h.2⟩
+  | phoneSeqLen =>
+    simp only [getOn, Outcome.ok.injEq, Prod.mk.injEq] at h ⊢
+    exact ⟨s2, rfl, h.2⟩
   | candEnumerate => cases hb
   | candHasNext => cases hb
   | candString => cases hb
@@ -882,6 +900,42 @@ theorem enumerate_then_loop (f : GFacts) (hsel : f.isSelecting = true) {cs : Lis
   obtain ⟨s2, h1, h2⟩ := cand_loop_hands_out f hsel cs { s with candIter := some cs } [] n hn rfl
   refine ⟨{ s with candIter := some cs }, s2, ?_, by simpa using h1, h2⟩
   simp only [getOn, hp]
+
+/-- **the deprecated `chewing_zuin_Check` is the INVERTED `chewing_bopomofo_Check`** (`x ^ 1` on 0 / 1), and
+    `chewing_zuin_String` is `chewing_bopomofo_String` plus the number of characters -/
+theorem zuin_is_inverted_bopomofo (f : GFacts) (s : GSlots) :
+    ∃ b z, getOn f s (.plain "chewing_bopomofo_Check") = .ok (s, .int b) ∧ getOn f s .zuinCheck = .ok (s, .int z) ∧
+      z = 1 - b ∧ (b = 0 ∨ b = 1) ∧
+      getOn f s .zuinString = .ok (s, .strCount (heapCstr (utf8Encode f.bopo)) (asCInt f.bopo.length)) ∧
+      getOn f s (.plain "chewing_bopomofo_String") = .ok (s, .heap (heapCstr (utf8Encode f.bopo))) := by
+  refine ⟨_, _, value_bopomofo_Check f s, rfl, ?_, ?_, rfl, rfl⟩ <;> cases f.enteringSyllable <;> decide
+
+/-- for a NULL context `chewing_zuin_Check` answers -2 (`ERROR ^ 1`), not -1 -/
+theorem zuin_check_null : getNull .zuinCheck = .ok (.int (-2)) := by decide
+
+section PhoneSeq
+variable {D L : Type} (env : Env D L) (bopo : L → Text)
+
+/-- **`chewing_get_phoneSeqLen` is the length of `chewing_get_phoneSeq`, the number of syllables among the symbols of the
+    pre-edit buffer, hence `≤ buffer_Len`** -/
+theorem phone_seq_len_le_buffer_len {e : Editor D L} {f : GFacts} (hf : GFacts.ofEditor env bopo e = .ok f) (s : GSlots)
+    (hlen : e.shared.com.len < 2147483648) :
+    ∃ seq n len, getOn f s .phoneSeq = .ok (s, .ushorts seq) ∧ getOn f s .phoneSeqLen = .ok (s, .int n) ∧
+      getOn f s (.plain "chewing_buffer_Len") = .ok (s, .int len) ∧ n = (seq.length : Int) ∧ n ≤ len ∧
+      seq = e.shared.com.inner.symbols.filterMap (fun | .syl k => some k | .chr _ => none) := by
+  have hseq : f.phoneSeq = e.shared.com.inner.symbols.filterMap (fun | .syl k => some k | .chr _ => none) := by
+    unfold GFacts.ofEditor at hf
+    split at hf
+    · simp only [Outcome.ok.injEq] at hf; subst hf; rfl
+    all_goals cases hf
+  obtain ⟨_, _, _, _, _, _, _, _, _, hl, _⟩ := ofEditor_ok env bopo hf
+  have hle : f.phoneSeq.length ≤ e.shared.com.len := by
+    rw [hseq]; exact List.length_filterMap_le _ _
+  refine ⟨_, _, _, rfl, rfl, value_buffer_Len f s, asCInt_small _ (by omega), ?_, hseq⟩
+  rw [asCInt_small _ (by omega), hl, asCInt_small _ hlen]
+  exact Int.ofNat_le.mpr hle
+
+end PhoneSeq
 
 /-! ## 8. NULL context, mode getters -/
 
